@@ -288,6 +288,14 @@ namespace sim
       std::printf ("VIOL %s %s %llu %s props=%u mine=%d at=%d kind=%s :: %s\n", uname,
                    jb.mode.c_str (), static_cast<unsigned long long> (seed), g.v_oracle.c_str (),
                    g.v_props, mine ? 1 : 0, at_op, kname, g.v_msg.c_str ());
+      for (std::size_t i = 0; i < g.also.size (); ++i)
+      {
+        const bool mine2 = jb.prop != 0 && (g.also[i].props & pbit (jb.prop)) != 0 && ! mine;
+        if (mine2)
+          ++tt.violations;
+        std::printf ("ALSO %s props=%u :: %s\n", g.also[i].oracle.c_str (), g.also[i].props,
+                     g.also[i].msg.c_str ());
+      }
       std::printf ("H world %u %u %d\n", idbits, e.cfg.valmod, e.cfg.stream_faults ? 1 : 0);
       for (std::size_t i = 0; i < hist.size (); ++i)
         std::printf ("H %s\n", op_to_text (hist[i]).c_str ());
@@ -332,6 +340,7 @@ namespace sim
       state& g = G ();
       g.violated = false;
       g.v_props  = 0;
+      g.also.clear ();
       R ().reset ();
       L ().reset ();
       e.build_world (idbits);
